@@ -229,6 +229,12 @@ def compare(out, tag, phi, ref, case):
             return
     if set(phi.state_names.keys()) != set(phi.variables):
         out.fail(f"{tag}:stale_state_names", f"{list(phi.state_names.keys())} vs scope {phi.variables}")
+    import numpy as np
+
+    shape = tuple(np.shape(phi.values))
+    if shape != tuple(len(phi.state_names[v]) for v in phi.variables) or shape != tuple(int(c) for c in phi.cardinality):
+        out.fail(f"{tag}:values_shape_disagrees_with_scope", f"values {shape}, variables {phi.variables}, cardinality {list(phi.cardinality)}")
+        return
     got = named(phi)
     if set(got) != set(ref.table):
         out.fail(f"{tag}:assignments", "assignment sets differ")
@@ -373,6 +379,8 @@ def check_op(case, out):
             out.cls("same_scope_different_axis_order")
     elif op in ("marginalize", "maximize", "reduce"):
         out.nontrivial = len(want.scope) >= 1
+        if len(case["names"]) >= 9:
+            out.cls("nine_or_more_variables")
         if not want.scope:
             out.cls("empty_scope_result")
     out.sample = {"op": op, "inplace": inplace, "factors": [f["vars"] for f in case["factors"]], "args": args}
@@ -436,7 +444,51 @@ def check_eq(case, out, f0, r0):
     out.sample = {"op": "eq", "mutation": mutation, "vars": vars0, "perm": pv}
 
 
+@st.composite
+def wide_case(draw):
+    """factors over 6-10 variables (mostly binary) with many variables eliminated / kept: axis bookkeeping at scale"""
+    k = draw(st.sampled_from([6, 7, 8, 9, 9, 10, 10, 11, 12]))
+    kind = draw(st.sampled_from(["int", "int", "str", "word"]))
+    pool = {"int": list(range(12)), "str": gen.STR_NAMES, "word": gen.WORD_NAMES}[kind]
+    names = list(draw(st.permutations(pool)))[:k]
+    card = [draw(st.sampled_from([2, 2, 2, 2, 1, 3])) for _ in range(k)]
+    while True:
+        cells = 1
+        for c in card:
+            cells *= c
+        if cells <= 4096:
+            break
+        card[card.index(max(card))] = 2 if max(card) == 3 else 1
+    states = []
+    for c in card:
+        _, sn = draw(gen.states_for(c, ("range", "str", "perm")))
+        states.append(sn)
+    op = draw(st.sampled_from(["marginalize", "maximize", "maximize", "reduce", "product"]))
+    vs = list(draw(st.permutations(names)))
+    vals = [draw(st.integers(0, 50)) / 10.0 for _ in range(min(cells, 64))]
+    vals = [vals[(i * 7 + i // 5) % len(vals)] + (i % 11) * 0.01 for i in range(cells)]
+    factors = [{"vars": vs, "values": vals}]
+    args = {}
+    if op in ("marginalize", "maximize"):
+        # either a random number of eliminated variables or "keep only a few" (small result scopes out of many axes)
+        m = draw(st.integers(1, k - 1)) if draw(st.booleans()) else k - draw(st.integers(1, 4))
+        args["vars"] = list(draw(st.permutations(vs)))[:m]
+    elif op == "reduce":
+        m = draw(st.integers(1, k - 1)) if draw(st.booleans()) else k - draw(st.integers(1, 4))
+        sub = list(draw(st.permutations(vs)))[:m]
+        args["assign"] = [[v, states[names.index(v)][draw(st.integers(0, card[names.index(v)] - 1))]] for v in sub]
+    else:
+        sub = list(draw(st.permutations(vs)))[: draw(st.integers(1, 4))]
+        n2 = 1
+        for v in sub:
+            n2 *= card[names.index(v)]
+        factors.append({"vars": sub, "values": [1.0 + ((i * 13) % 7) for i in range(n2)]})
+    return {"name_kind": kind, "names": names, "card": card, "states": states, "factors": factors, "op": op, "args": args, "inplace": draw(st.booleans())}
+
+
 SUBCHECKS = [
+    Sub("wide_ops", check_op, strategy=lambda tier: wide_case(), n={"quick": 150, "thorough": 1500}, shards={"quick": 6, "thorough": 8},
+        doc="marginalize / maximize / reduce / product on factors over 6-10 variables (axis and label bookkeeping beyond small scopes)"),
     Sub("ops", check_op, strategy=lambda tier: fcase(), n={"quick": 500, "thorough": 8000},
         shards={"quick": 12, "thorough": 16}, doc="every DiscreteFactor operation vs dictionary-factor reference; operand immutability; aliasing; equality"),
 ]
